@@ -57,6 +57,9 @@ struct Run {
     close_after: Option<usize>,
     /// file whose existence is sampled at the moment delta is seen to have exited
     stamp: Option<PathBuf>,
+    /// run delta through `bash -c <script> <delta> <args>` (script: `exec "$0" "$@" ...`), e.g.
+    /// to hand it a process substitution
+    via_bash: Option<String>,
 }
 
 struct Out {
@@ -73,8 +76,18 @@ struct Out {
 }
 
 fn run(w: &World, r: &Run) -> std::io::Result<Out> {
-    let mut cmd = Command::new(&w.delta);
-    cmd.args(&r.args);
+    let mut cmd = match &r.via_bash {
+        None => {
+            let mut c = Command::new(&w.delta);
+            c.args(&r.args);
+            c
+        }
+        Some(script) => {
+            let mut c = Command::new("/bin/bash");
+            c.arg("-c").arg(script).arg(&w.delta).args(&r.args);
+            c
+        }
+    };
     cmd.env_clear();
     let path = if r.tools { format!("{}:{}:/usr/bin:/bin", w.tools.display(), w.pagers.display()) } else { format!("{}:/usr/bin:/bin", w.pagers.display()) };
     cmd.env("PATH", path).env("HOME", &w.home).env("XDG_CONFIG_HOME", w.home.join(".config")).env("GIT_CONFIG_NOSYSTEM", "1").env("TERM", "xterm-256color");
@@ -601,6 +614,32 @@ fn s_files(t: &mut Tape, sc: &mut Sc) -> Verdict {
     let _ = std::fs::remove_file(&fb);
     if variant != 2 {
         std::fs::write(&fb, b_lines.join("\n") + "\n").expect("write b");
+    }
+    // one side given as a process substitution (`delta a.txt <(cat b.txt)`): a pipe under /dev/fd,
+    // which older git cannot diff - delta must still compare the contents
+    if (variant == 0 || variant == 1) && t.chance(1, 4) {
+        let left = t.coin();
+        let script = if left { "exec \"$0\" \"$@\" <(cat a.txt) b.txt" } else { "exec \"$0\" \"$@\" a.txt <(cat b.txt)" };
+        let r = Run { args: args.clone(), via_bash: Some(script.to_string()), ..Default::default() };
+        sc.detail = json!({"run": args_json(&r), "shell": script, "variant": (["identical", "different"][variant]), "a.txt": a_lines, "b.txt": b_lines});
+        let o = match sc.run(&r) {
+            Ok(o) => o,
+            Err(v) => return v,
+        };
+        if variant == 0 && (o.status != Some(0) || !o.stdout.is_empty()) {
+            return sc.fail("process-substitution:identical-files", format!("`{}` with identical contents: exit {:?}, {} bytes of output; stderr: {}", script, o.status, o.stdout.len(), String::from_utf8_lossy(&o.stderr).chars().take(300).collect::<String>()), json!(null));
+        }
+        if variant == 1 {
+            if o.status != Some(1) {
+                return sc.fail("process-substitution:different-files-status", format!("`{}` with different contents: exit {:?} (expected 1); stderr: {}", script, o.status, String::from_utf8_lossy(&o.stderr).chars().take(300).collect::<String>()), json!(null));
+            }
+            let got = visible_sentinels(&o.stdout);
+            if let Some(m) = changed.difference(&got).next() {
+                return sc.fail("process-substitution:output-incomplete", format!("`{}`: the changed line with sentinel Q{}Z is missing from the output", script, m), json!(null));
+            }
+        }
+        sc.ctx.class("files:process-substitution");
+        return Verdict::Pass;
     }
     // `delta A B` with a pager: whatever happens - also when the differ cannot even be started
     // because --diff-args does not parse - delta has to outlive the pager it spawned
